@@ -117,6 +117,12 @@ func (w *c09World) enabledOps() []string {
 	if tip > 3 && tip%1000 > 3 {
 		ops = append(ops, "revert:"+strconv.Itoa(tip-3))
 	}
+	// an equal-length reorganisation (the most common shape): revert by n, append n other headers
+	for _, n := range []int{1, 3} {
+		if tip > n {
+			ops = append(ops, "fork:"+strconv.Itoa(n))
+		}
+	}
 	ops = append(ops, "save", "save+reload")
 	return ops
 }
@@ -136,6 +142,13 @@ func (w *c09World) apply(op string) {
 		arg, _ = strconv.Atoi(parts[1])
 	}
 	switch parts[0] {
+	case "fork":
+		w.ops = w.ops[:len(w.ops)-1]
+		w.apply("revert:" + strconv.Itoa(w.tip()-arg))
+		for i := 0; i < arg && len(w.viol) == 0; i++ {
+			w.apply("add")
+		}
+		return
 	case "add", "grow":
 		target := w.tip() + 1
 		if parts[0] == "grow" {
@@ -555,7 +568,7 @@ func runC09() int {
 	rep.Coverage["evaluations"] = seqs
 	rep.Coverage["distinct_nontrivial"] = len(rep.Outcomes)
 	rep.Coverage["queries_compared"] = queries
-	rep.Coverage["rule"] = fmt.Sprintf("every sequence of <= depth macro operations {add 1, grow to boundary height, revert to boundary height, save, save+reload} over boundary heights (%s), both delete-missing behaviours; each executed on the real BlockRepository over RecStore and compared after every operation with a reference slice (every by-height/by-hash/tip query at all file boundaries +-1, negative and beyond-tip heights; node-level BlockHash/GetHeaders after each save). states = operation sequences executed (no merging); distinct = distinct (tip, newest-file-saved state, number of reverted headers) outcomes", fmt.Sprint(cfgs))
+	rep.Coverage["rule"] = fmt.Sprintf("every sequence of <= depth macro operations {add 1, grow to boundary height, revert to boundary height, equal-length fork of 1 / 3 headers, save, save+reload} over boundary heights (%s), both delete-missing behaviours; each executed on the real BlockRepository over RecStore and compared after every operation with a reference slice (every by-height/by-hash/tip query at all file boundaries +-1, negative and beyond-tip heights; node-level BlockHash/GetHeaders after each save). states = operation sequences executed (no merging); distinct = distinct (tip, newest-file-saved state, number of reverted headers) outcomes", fmt.Sprint(cfgs))
 	rep.Coverage["depth_completed"] = cfgs[len(cfgs)-1].depth
 	rep.Assumptions = []string{"storage Write/Remove are atomic per key", "headers are synthetic (no proof of work); branch salt makes re-grown headers differ from reverted ones"}
 	repoConc(rep, "C09")
